@@ -626,17 +626,18 @@ class PendingAssign(PendingNode[Assign | AnnAssign]):
         return self.nsp.get_assign(target.id, value)
 
     def assign_subscript(self, target: Subscript, value: expr):
-        _slice = target.slice
-        if isinstance(_slice, Slice):
-            _slice = utils.convert_slice(_slice)
+        subscripted = expr_transf(self.nsp, target.value)
+        _slice = utils.convert_slice(
+            target.slice, lambda e: expr_transf(self.nsp, e)
+        )
 
         return Call(
             func=Attribute(
-                value=expr_transf(self.nsp, target.value),
+                value=subscripted,
                 attr="__setitem__",
                 ctx=Load(),
             ),
-            args=[expr_transf(self.nsp, _slice), value],
+            args=[_slice, value],
             keywords=[],
         )
 
@@ -847,15 +848,15 @@ class PendingAugAssign(PendingNode[AugAssign]):
                 )
                 subscript_parent = tmp_parent_name
 
-            slice_expr = target.slice
-            if isinstance(slice_expr, Slice):
-                slice_expr = utils.convert_slice(slice_expr)
+            slice_expr = utils.convert_slice(
+                target.slice, lambda e: expr_transf(self.nsp, e)
+            )
 
             # save slice expr to a tmp
             return_list.append(
                 NamedExpr(
                     target=tmp_slice_name,
-                    value=expr_transf(self.nsp, slice_expr),
+                    value=slice_expr,
                 )
             )
 
